@@ -125,3 +125,172 @@ func init() {
 		return got
 	}
 }
+
+// ---- replayers for jin (JSON request tokens) and hist (client histories) ---------------------
+
+func parseJTokens(s *tokStream) (*jnode, error) {
+	t, ok := s.next()
+	if !ok {
+		return nil, fmt.Errorf("eof")
+	}
+	switch {
+	case t == "null":
+		return jnull(), nil
+	case t == "true":
+		return jbool(true), nil
+	case t == "false":
+		return jbool(false), nil
+	case t == "[":
+		n := jarr()
+		for {
+			if s.i < len(s.t) && s.t[s.i] == "]" {
+				s.i++
+				return n, nil
+			}
+			x, err := parseJTokens(s)
+			if err != nil {
+				return nil, err
+			}
+			n.arr = append(n.arr, x)
+		}
+	case t == "{":
+		n := jobj()
+		for {
+			k, ok := s.next()
+			if !ok {
+				return nil, fmt.Errorf("eof")
+			}
+			if k == "}" {
+				return n, nil
+			}
+			kb, err := unhex(strings.TrimPrefix(k, "k:"))
+			if err != nil {
+				return nil, err
+			}
+			v, err := parseJTokens(s)
+			if err != nil {
+				return nil, err
+			}
+			n.set(string(kb), v)
+		}
+	case strings.HasPrefix(t, "s:"):
+		b, err := unhex(t[2:])
+		return jstr(string(b)), err
+	case strings.HasPrefix(t, "n:"):
+		f := strings.Split(t[2:], ":")
+		if len(f) != 3 {
+			return nil, fmt.Errorf("number token")
+		}
+		lit := f[0]
+		if f[1] != "0" {
+			lit += "e" + f[1]
+		}
+		return jnum(lit), nil
+	}
+	return nil, fmt.Errorf("token %q", t)
+}
+
+func parseReplySpec(s *tokStream, items func([]rscp.Message) []byte) (replySpec, error) {
+	t, _ := s.next()
+	switch t {
+	case "X":
+		return replySpec{behaviour{kind: "closeBefore"}, "X"}, nil
+	case "F":
+		ms, err := parseMsgs(s)
+		if err != nil {
+			return replySpec{}, err
+		}
+		if len(ms) == 0 {
+			return replySpec{behaviour{kind: "empty"}, "F [ ]"}, nil
+		}
+		return frameReply(ms), nil
+	case "P":
+		e, _ := s.next()
+		k, _ := s.next()
+		var extra []rscp.Message
+		if k == "1" {
+			ms, err := parseMsgs(s)
+			if err != nil {
+				return replySpec{}, err
+			}
+			extra = ms
+		}
+		model := "P " + e + " " + k
+		if k == "1" {
+			model += " " + msgsString(extra)
+		}
+		switch e {
+		case "invalidMagic":
+			kk := 0
+			if k == "1" {
+				kk = 1000
+			}
+			return replySpec{behaviour{kind: "garbled", k: kk, items: encItems(extra)}, model}, nil
+		case "invalidCrc":
+			return replySpec{behaviour{kind: "badCrc", items: encItems([]rscp.Message{{Tag: 0x00800001, DataType: rscp.UChar8, Value: uint8(1)}})}, model}, nil
+		}
+		return replySpec{behaviour{kind: "malformed", items: itemBytes(1, 0x11, nil)}, model}, nil
+	}
+	return replySpec{}, fmt.Errorf("reply token %q", t)
+}
+
+func init() {
+	replayers["jin"] = func(op string) string {
+		s := &tokStream{t: strings.Fields(op)[1:]}
+		root, err := parseJTokens(s)
+		if err != nil {
+			return "bad-op"
+		}
+		loop, err := startE3Loop()
+		if err != nil {
+			return "no-e3dc-binary"
+		}
+		defer loop.close()
+		var sb strings.Builder
+		root.text(&sb, nil)
+		got := loop.ask("in " + hexOf([]byte(sb.String())))
+		if !strings.HasPrefix(got, "ok ") && got != "panic" {
+			got = "err"
+		}
+		return got + "   [text: " + trunc(sb.String(), 200) + "]"
+	}
+	replayers["hist"] = func(op string) string {
+		parts := strings.Split(op, " | ")
+		hd := strings.Fields(parts[0])
+		if len(hd) != 3 {
+			return "bad-op"
+		}
+		u, _ := unhex(hd[1])
+		p, _ := unhex(hd[2])
+		s, err := newSession(string(u), string(p), "replaykey", 150*time.Millisecond, 1)
+		if err != nil {
+			return "newclient-error"
+		}
+		defer s.close()
+		var res []string
+		for _, cp := range parts[1:] {
+			f := strings.Fields(cp)
+			if len(f) == 1 && f[0] == "D" {
+				res = append(res, s.call(&callSpec{kind: "D"}))
+				continue
+			}
+			if len(f) < 4 {
+				return "bad-op"
+			}
+			c := &callSpec{kind: f[0], dialOk: f[1] == "1", writeOk: f[2] == "1"}
+			ts := &tokStream{t: f[3:]}
+			var err error
+			if c.auth, err = parseReplySpec(ts, encItems); err != nil {
+				return "bad-op"
+			}
+			if c.user, err = parseReplySpec(ts, encItems); err != nil {
+				return "bad-op"
+			}
+			if c.reqs, err = parseMsgs(ts); err != nil {
+				return "bad-op"
+			}
+			res = append(res, s.call(c))
+		}
+		return strings.Join(res, " | ")
+	}
+}
